@@ -135,7 +135,14 @@ LabHole(m, n) ==
               timeout_ms |-> 500, queries |-> 1, e2e |-> 0, want_v6 |-> FALSE, skip_private |-> FALSE],
      bound_ms |-> IF m = "sack" THEN 500 + 1500 ELSE 500 + (n + 3) * 500 + 1500,
      expect |-> [ok |-> (m = "prefer_sack"), notsupported |-> (m = "sack"), hops |-> <<>>]]
-C08Lab == { LabHole(m, n) : m \in {"sack", "prefer_sack"}, n \in {1, 2} }
+\* the tracer's own kernel refuses to send the probes (a local output filter: sendto fails with EPERM): the run FAILS, at once
+LabOutDrop(v) ==
+    [id |-> "C08/lab/" \o v[1] \o v[2] \o "/output_filtered", label |-> v[1] \o v[2] \o "/send_refused_locally", kind |-> "lab", n |-> 1, port |-> "closed",
+     silent |-> <<>>, cli |-> FALSE, v6 |-> FALSE, skip |-> FALSE, reject |-> 0, noise |-> "", outdrop |-> DestAddr(1),
+     req |-> [hostname |-> DestAddr(1), port |-> 443, protocol |-> v[1], tcp_method |-> v[2], min_ttl |-> 1, max_ttl |-> 4,
+              timeout_ms |-> 500, queries |-> 1, e2e |-> 0, want_v6 |-> FALSE, skip_private |-> FALSE],
+     bound_ms |-> 2500, expect |-> [ok |-> FALSE, notsupported |-> FALSE, hops |-> <<>>]]
+C08Lab == { LabHole(m, n) : m \in {"sack", "prefer_sack"}, n \in {1, 2} } \cup { LabOutDrop(v) : v \in {<<"udp", "">>, <<"icmp", "">>, <<"tcp", "syn">>} }
 
 LabGen == IF "VT_GEN" \in DOMAIN IOEnv THEN IOEnv.VT_GEN ELSE "C13"
 LabCases == IF LabGen = "C08" THEN C08Lab ELSE All \cup Extra \cup CliAll \cup MoreC13
